@@ -155,7 +155,7 @@ func c13List(tier string) []c13Case {
 		}
 	}
 	tpls = append(tpls, c13OptionTemplates...)
-	subst := append(append([]string{}, c13Values...), "1.5", "-0", "+1", " 1", "1e3", "0x10", "18446744073709551616", "-2147483649", "u64", "i65", "u0", "#9223372036854775807", "LEFT", "COUNT", "LIMIT", "GET", "MATCH")
+	subst := append(append([]string{}, c13Values...), "1.5", "-0", "+1", " 1", "1e3", "0x10", "18446744073709551616", "-2147483649", "u64", "i65", "u0", "#9223372036854775807", "LEFT", "COUNT", "LIMIT", "GET", "MATCH", "x\r\n+OK")
 	addArgs := func(a []string) {
 		k := strings.Join(a, "\x00")
 		if !seen[k] {
@@ -213,6 +213,10 @@ func c13Huge(t []string, pos int, v string) bool {
 }
 
 var c13OptionTemplates = [][]string{
+	// names whose length is a multiple of 8 and that differ in one bit of the first byte of the last
+	// 8-byte block (the hash function once mixed the length into that byte: identical hashes, and a
+	// table that holds both never stops growing)
+	{"HSET", "kc", "0abcdefg", "1", "8abcdefg", "2"}, {"SADD", "kc", "0abcdefg", "8abcdefg"}, {"MSET", "0abcdefg", "1", "8abcdefg", "2"}, {"SADD", "kc", "01234567@abcdefg", "01234567Pabcdefg"}, {"HSET", "kc", "01234567 abcdefg", "1", "012345670abcdefg", "2"},
 	{"LPOS", "kl", "e", "RANK", "1"}, {"LPOS", "kl", "e", "RANK", "-1", "COUNT", "0", "MAXLEN", "0"}, {"LPOS", "kl", "e", "COUNT", "2"}, {"LPOS", "kl", "e", "MAXLEN", "1"},
 	{"LMPOP", "1", "kl", "LEFT", "COUNT", "1"}, {"LMPOP", "2", "kl", "kn", "RIGHT"}, {"BLMPOP", "0.01", "1", "kl", "LEFT", "COUNT", "1"}, {"BLPOP", "kn", "0.01"}, {"BRPOP", "kl", "kn", "0.01"}, {"BLMOVE", "kn", "kl", "LEFT", "RIGHT", "0.01"}, {"BRPOPLPUSH", "kn", "kl", "0.01"},
 	{"LRANGE", "kl", "0", "-1"}, {"LTRIM", "kl", "0", "-1"}, {"LINDEX", "kl", "0"}, {"LSET", "kl", "0", "v"}, {"LREM", "kl", "1", "e"}, {"LINSERT", "kl", "AFTER", "e", "v"}, {"LPOP", "kl", "1"}, {"RPOP", "kl", "1"},
